@@ -39,6 +39,10 @@ BASE_TRUSTED = [
     "harness: case generator, Coq-term emitter/parser (harness/lib/coqrun.py), implementation runner, comparator, monitors",
     "CPython 3.12 / Cython 3 semantics of generators, exceptions, descriptors (modelled, not verified)",
 ]
+TRANS_TRUSTED = [
+    "source-to-Gallina translator harness/lib/pytrans.py (unwrap / extract_futures only; fail-closed subset, docs/translator.md) "
+    "and Python's ast module; reading of a yielded value as ystruct (non-future leaf = leaf whose look is TypeError)",
+]
 
 
 def load_known():
@@ -205,6 +209,14 @@ def _main(P, tier, seed):
     proof = coqrun.check_props(prop)
     print("[%s] proof: ok=%s obligations=%d discharged=%d axioms=%s" % (
         prop, proof["ok"], proof["obligations"], proof["discharged"], sorted(proof.get("axioms", {}))))
+    # 1b. translation obligation (props with TRANSLATED = True): the functions the pure theorems are about, translated
+    # from the tree under check by harness/lib/pytrans.py, must still be equal to the hand-written model
+    trans = None
+    if getattr(P, "TRANSLATED", False):
+        from . import transcheck
+        trans = transcheck.check_translation(B.REPO)
+        print("[%s] translation: ok=%s stage=%s obligations=%d discharged=%d %s" % (
+            prop, trans["ok"], trans["stage"], trans["obligations"], trans["discharged"], trans["message"]))
 
     # 2. cases
     corpus = list(getattr(P, "CORPUS", []))
@@ -395,6 +407,12 @@ def _main(P, tier, seed):
                                         theorems=proof.get("theorems"), bad_axioms=proof.get("bad_axioms"), log=proof.get("log"),
                                         seed=seed, tier=tier))
         lines.append("VIOLATION property=%s replay=%s no-failing-input-found" % (prop, path))
+    if trans is not None and not trans["ok"] and not violations:
+        violations += 1
+        path = _write_replay(prop, dict(kind="translation-broken", message=trans["message"], stage=trans["stage"],
+                                        theorems=trans.get("theorems"), log=trans.get("log"),
+                                        generated=trans.get("generated"), seed=seed, tier=tier))
+        lines.append("VIOLATION property=%s replay=%s no-failing-input-found" % (prop, path))
 
     # 7. evidence
     canon = getattr(P, "canon", None) or (lambda c: json.dumps(c["tree"], sort_keys=True))
@@ -406,9 +424,16 @@ def _main(P, tier, seed):
     samples = [dict(case=c["tree"], meta=c.get("meta"), implementation_output={k: impl_outs[k][c["idx"]] for k in impl_outs},
                     model_output=next((model_by[kk] for kk in model_by if kk[0] == c["idx"]), None)) for c in (nontriv[:2] or cases[:2])]
     cov = dict(
-        obligations=max(1, proof["obligations"]), discharged=proof["discharged"],
+        obligations=max(1, proof["obligations"]) + (trans["obligations"] if trans else 0),
+        discharged=proof["discharged"] + (trans["discharged"] if trans and trans["ok"] else 0),
         checker_cmd="make -C coq theories/props/%s.vo (coqc 8.16.1, full .vo build; Print Assumptions parsed from this run)" % prop,
-        trusted_base=BASE_TRUSTED + list(getattr(P, "TRUSTED", [])),
+        trusted_base=BASE_TRUSTED + list(getattr(P, "TRUSTED", [])) + (TRANS_TRUSTED if trans else []),
+        translation=(dict(ok=trans["ok"], stage=trans["stage"], message=trans["message"], theorems=trans["theorems"],
+                          obligations=trans["obligations"], discharged=trans["discharged"],
+                          source=os.path.join(B.REPO, "asynq", "async_task.py"), generated=trans.get("generated"),
+                          checker_cmd="harness/lib/pytrans.py -> <tmp>/UnwrapGen.v; coqc -Q coq/theories Asynq -Q <tmp> AsynqGen "
+                                      "UnwrapGen.v coq/gen_proofs/UnwrapGenProofs.v (Print Assumptions parsed from this run)")
+                     if trans else None),
         theorems=proof.get("theorems"), axioms=proof.get("axioms"),
         evaluations=len(cases) * max(1, len(impl_outs)), distinct_nontrivial=len(nontriv),
         rule=P.RULE, samples=samples,
